@@ -17,7 +17,7 @@ pub fn check() -> Check {
     Check {
         id: "C16",
         level: "fault_enumeration",
-        rule: "schedules are generated from the run seed with ids biased to 2^k-1/2^k, seeds needing 1..10 varint bytes, lengths around the 76-column wrap, empty/random-only/task-only mixes, plus the schedules recorded by real simulated executions; every sample is round-tripped in three layouts and then corrupted at EVERY truncation point (exhaustive per sample), by every version byte class, by non-hex characters and by a declared length beyond the payload. A case is distinct by the hash of the input string; non-trivial = a schedule with at least one step or a corrupted string",
+        rule: "schedules are generated from the run seed with ids biased to 2^k-1/2^k, seeds needing 1..10 varint bytes, lengths around the 76-column wrap, empty/random-only/task-only mixes, plus the schedules recorded by real simulated executions; every sample is round-tripped in six layouts (as printed, flat, re-wrapped with mixed whitespace, padded / interleaved with blanks, tabs and CR but no line feed, CRLF line ends) and then corrupted at EVERY truncation point (exhaustive per sample), by every version byte class, by non-hex characters and by a declared length beyond the payload (by 1 bit up to 2^64-1). A case is distinct by the hash of the input string; non-trivial = a schedule with at least one step or a corrupted string",
         assumptions: &[
             "the decoder is called in-process inside catch_unwind; a process abort is caught by the coordinator as a worker abort",
             "a truncated string may decode only to None or (when only padding bytes were cut) to the original schedule",
@@ -152,7 +152,20 @@ fn check_roundtrip(s: &Schedule, out: &mut RunOut, rng: &mut Rng) {
         rewrapped.push(c);
     }
     rewrapped.push_str("\n  ");
-    for (name, text) in [("as-printed", enc.clone()), ("flat", flat.clone()), ("rewrapped", rewrapped)] {
+    // surrounding / interior whitespace other than line feeds (a string copied out of a log line,
+    // a file with CR line ends): no '\n' anywhere
+    let pads = [" ", "\t", "\r", "  \t "];
+    let padded = format!("{}{}{}", pads[rng.below(4)], flat, pads[rng.below(4)]);
+    let w2 = rng.range(2, 90);
+    let mut spaced = String::new();
+    for (i, c) in flat.chars().enumerate() {
+        if i > 0 && i % w2 == 0 {
+            spaced.push_str(pads[rng.below(4)]);
+        }
+        spaced.push(c);
+    }
+    let crlf = enc.replace('\n', "\r\n");
+    for (name, text) in [("as-printed", enc.clone()), ("flat", flat.clone()), ("rewrapped", rewrapped), ("padded-no-linefeed", padded), ("spaced-no-linefeed", spaced), ("crlf", crlf)] {
         match decode(&text) {
             Ok(Some(d)) if d == *s => out.count("roundtrip_ok", 1),
             Ok(other) => out.violation(
@@ -168,7 +181,7 @@ fn check_roundtrip(s: &Schedule, out: &mut RunOut, rng: &mut Rng) {
         }
     }
     out.distinct.push(hash_str(&flat));
-    out.evals += 3;
+    out.evals += 6;
 }
 
 /// malformed input must give None (or, for truncations, the original schedule)
@@ -264,7 +277,7 @@ fn corrupt(s: &Schedule, out: &mut RunOut, rng: &mut Rng) {
         let hdr = 1 + varint(bits).len() + varint(steps.len() as u64).len() + varint(seed).len();
         all[hdr..].to_vec()
     };
-    for extra in [1u64, 9, 1000, 1 << 20] {
+    for extra in [1u64, 9, 1000, 1 << 20, 1 << 40, 1 << 59, 1 << 62, u64::MAX - payload.len() as u64 * 8] {
         let declared = payload.len() as u64 * 8 + extra;
         let mut b = vec![0x91u8];
         b.extend(varint(bits));
